@@ -4,7 +4,8 @@
    An admissible execution is an action list on which drr_run succeeds; all theorems quantify over every such list
    (every interleaving of put() calls and kernel steps inside an instant), every table, rate and flow-to-class map. *)
 From Coq Require Import ZArith QArith List Bool.
-From ONL Require Import Elem.Packet Elem.StoreQ Elem.DRR Elem.DRRInv Elem.DRRProofs.
+From Coq Require Import Qabs.
+From ONL Require Import Elem.Packet Elem.StoreQ Elem.DRR Elem.DRRInv Elem.DRRProofs Elem.DRRVisit Elem.DRRFair.
 Import ListNotations.
 
 (* Q_c = 1500 * w_c / min w, where min w is the least weight of the table *)
@@ -43,3 +44,27 @@ Theorem C15_drr_credit_forgotten : forall (cfg : dcfg) (t0 : Q) (acts : list dac
   forall c, dheld cfg d c = [] -> ddone cfg d c = 0%Z -> ddef d c == 0.
 Proof. exact drr_credit_forgotten_l. Qed.
 Print Assumptions C15_drr_credit_forgotten.
+
+(* the visit rule: every enabled action of every admissible execution emits an event sequence that the specification
+   automaton of the C15 text (DRRVisit.dspec: classes in declaration order, quantum iff the class holds a packet, head
+   sent iff size <= credit and debited, unaffordable head parked, credit reset iff the class is empty after the debit)
+   accepts, from the automaton state of the state before to that of the state after *)
+Theorem C15_drr_visit : forall (cfg : dcfg) (t0 : Q) (acts : list daction) (d : drr) (tr : list dtev)
+    (a : daction) (d' : drr) (ev : list dout),
+  dwf cfg -> drr_run cfg (drr0 t0) acts = Some (d, tr) -> drr_act cfg d a = Some (d', ev) ->
+  dspecs cfg (dheld cfg d') (dabs d) ev (dabs d').
+Proof. exact drr_visit_l. Qed.
+Print Assumptions C15_drr_visit.
+
+(* long-run fairness: over any sub-execution (acts2, from any reachable state d1) throughout which classes i and j both
+   hold a packet, the bytes forwarded for them (dsent = dbytes of the forwarded packets of the class, DRRFair.dsent_bytes)
+   divided by their quanta differ by less than 4 + 3*Lmax*(1/Q_i + 1/Q_j) *)
+Theorem C15_drr_fairness : forall (cfg : dcfg) (t0 : Q) (acts1 : list daction) (d1 : drr) (tr1 : list dtev)
+    (acts2 : list daction) (d2 : drr) (tr2 : list dtev) (i j : Z),
+  dwf cfg -> drr_run cfg (drr0 t0) acts1 = Some (d1, tr1) -> drr_run cfg d1 acts2 = Some (d2, tr2) ->
+  In i (dclasses cfg) -> In j (dclasses cfg) ->
+  dalways cfg (fun x => dheld cfg x i <> [] /\ dheld cfg x j <> []) d1 acts2 ->
+  Qabs (inject_Z (dsent cfg i tr2) / dquantum cfg i - inject_Z (dsent cfg j tr2) / dquantum cfg j)
+    < 4 + 3 * inject_Z (dlmax d2) * (1 / dquantum cfg i + 1 / dquantum cfg j).
+Proof. exact drr_fairness_l. Qed.
+Print Assumptions C15_drr_fairness.
